@@ -11,6 +11,44 @@ TB = ("Trusted: Lean 4.33.0 kernel, axioms propext/Classical.choice/Quot.sound o
       "kirin and bloqade-geometry are modelled, not verified. ")
 
 CLAIMS = {
+    "C01": dict(
+        text="Theorem C01_trace_eq_ref: for every operation sequence (any length) and any static slice/list classification, "
+             "the model of TraceInterpreter/ActionTracer returns a path iff the independently written reference AOD semantics "
+             "does, and the same path; C01_error_iff characterises exactly when there is no path (use before set_loc, shape "
+             "change). The switch-class dispatch (desugar truth tables x tracer behaviour on all 8 statement classes x 4 "
+             "run-time forms) is regenerated from the source on every run and C01_kind_faithful is re-proved over it by "
+             "`decide`. Model and code are tied by tracing generated kernels (loops, branches, helpers, every selector form) "
+             "with the real @tweezer / TraceInterpreter and comparing with model and reference.",
+        note=TB + "The flattening of generated kernels to their operation sequence is done by the harness generator "
+                  "(Python), not by a Lean evaluator; kirin's lowering/interpreter and Grid arithmetic are exercised, not verified.",
+        technique="Lean 4 refinement proof (simulation) + regenerated dispatch tables + differential correspondence",
+        ref="§3 C01"),
+    "C02": dict(
+        text="Theorems: reverse_path never fails and equals the time-reversal specification (C02_reverse_eq_spec), is an "
+             "involution, reverses the way points, flips every switch keeping tones and slice/list form, for paths of any "
+             "length; schedule level: reverse(reverse(f)) = f and f / reverse(f) yield mutually reversed paths for any trace "
+             "function. The inv pairing table is regenerated from the eight inv() methods by reflection on every run and "
+             "C02_inv_table is re-proved over it. Tie: reverse_path on traced and synthetic paths vs model and spec; "
+             "f, reverse(f), reverse^2(f), reverse^3(f) played through the real interpreter with an event logger.",
+        note=TB + "Dataclass equality of action objects is trusted.",
+        technique="Lean 4 theorems by list induction over a regenerated inv table + differential correspondence",
+        ref="§3 C02"),
+    "C11": dict(
+        text="Theorems: every path the tracer model returns satisfies the well-formedness recogniser WF (invariant by "
+             "induction over arbitrary operation sequences), and reversal preserves WF (forward/backward automaton gluing "
+             "lemma), hence every gen route yields WF paths. The same WF function is evaluated by the driver on every real "
+             "traced / reversed path.",
+        note=TB + "WF is the formalisation of the property's sentence; see Model/Tracer.lean.",
+        technique="Lean 4 invariant proofs + executable recogniser applied to real paths",
+        ref="§3 C11"),
+    "C15": dict(
+        text="Theorem C15_fresh_equiv: for every history of run_trace calls (successes and failures mixed, any initial "
+             "instance state) each call returns what a fresh instance returns; proved over reset/copy flags regenerated "
+             "from the behaviour of initialize()/run_trace on every run. The no-retroactive-mutation half is partial: it is "
+             "about aliasing, checked on the implementation by deep-copy comparison of earlier results after every later call.",
+        note=TB + "Partial: object identity/aliasing is not modelled in Lean.",
+        technique="Lean 4 theorem over regenerated shape flags + history-based differential correspondence",
+        ref="§3 C15"),
     "C18": dict(
         text="All bounded-lattice laws are theorems about Model/Lattice.lean for elements of any nesting depth over any "
              "strings (structural induction); the model is tied to lattice.py by running is_subseteq/join/meet of the real "
